@@ -302,9 +302,20 @@ fn gen_col(rng: &mut Rng, cname: &str, ty: Ty, rows: usize, nulls16: u8, cluster
         ),
         ("s", _) => {
             let n = 1 + rng.usize(WORDS.len());
+            // one table in four spells its low-cardinality strings with a long common prefix
+            // and equal length (`customer_0007`): keys that agree in their first 8 bytes and
+            // their length, which prefix-based key encodings must still tell apart
+            let long_prefix = rng.fork(0x10c9).chance(1, 4);
             ColData::Str(
                 (0..rows)
-                    .map(|_| if is_null(rng) { None } else { Some(WORDS[rng.usize(n)].to_string()) })
+                    .map(|_| {
+                        if is_null(rng) {
+                            None
+                        } else {
+                            let i = rng.usize(n);
+                            Some(if long_prefix { format!("customer_{i:04}") } else { WORDS[i].to_string() })
+                        }
+                    })
                     .collect(),
             )
         }
@@ -386,6 +397,25 @@ pub fn gen_cuts(rng: &mut Rng, rows: usize, max_batches: usize) -> Vec<usize> {
     cuts
 }
 
+/// As `gen_cuts`, and half of the time with one to three cut points repeated (or placed at
+/// the very start / end), so the split contains EMPTY batches at seeded positions.
+pub fn gen_cuts_holes(rng: &mut Rng, rows: usize, max_batches: usize) -> Vec<usize> {
+    let mut cuts = gen_cuts(rng, rows, max_batches);
+    if rows > 0 && rng.coin() {
+        for _ in 0..1 + rng.usize(3) {
+            let c = match rng.below(4) {
+                0 => 0,
+                1 => rows,
+                _ if !cuts.is_empty() => cuts[rng.usize(cuts.len())],
+                _ => rng.usize(rows + 1),
+            };
+            cuts.push(c);
+        }
+        cuts.sort();
+    }
+    cuts
+}
+
 #[derive(Clone, Debug)]
 pub struct ParquetLayout {
     /// row offsets at which a new file starts (sorted, within 0..=rows)
@@ -399,6 +429,10 @@ pub struct ParquetLayout {
     /// place each file in its own sub-directory using the SAME file name (Iceberg
     /// partition-directory shape)
     pub same_name_dirs: bool,
+    /// zero-row row groups to splice into every file: each entry k puts one empty row group
+    /// in front of the file's k-th populated one (k past the end: after the last). A footer
+    /// may hold such groups (ArrowWriter never emits them; other writers do).
+    pub empty_row_groups: Vec<usize>,
 }
 
 pub fn gen_layout(rng: &mut Rng, rows: usize, max_files: usize) -> ParquetLayout {
@@ -423,6 +457,15 @@ pub fn gen_layout(rng: &mut Rng, rows: usize, max_files: usize) -> ParquetLayout
         stats: *rng.pick(&[0u8, 1, 1, 2, 2]),
         stem: "part".into(),
         same_name_dirs: false,
+        empty_row_groups: {
+            // from a forked stream so the other layout draws do not shift
+            let mut er = rng.fork(0xe3b7);
+            if er.chance(1, 6) {
+                (0..1 + er.usize(3)).map(|_| er.usize(6)).collect()
+            } else {
+                vec![]
+            }
+        },
     }
 }
 
@@ -475,7 +518,61 @@ pub fn write_parquet_file(
         p = q;
     }
     w.close().map_err(io)?;
+    if !lay.empty_row_groups.is_empty() && hi > lo {
+        insert_empty_row_groups(path, &lay.empty_row_groups)?;
+    }
     Ok(())
+}
+
+/// Rewrite `path` with zero-row row groups spliced in (see `ParquetLayout::empty_row_groups`):
+/// the populated row groups are copied chunk for chunk, undecoded.
+pub fn insert_empty_row_groups(path: &Path, before: &[usize]) -> std::io::Result<()> {
+    use parquet::column::writer::ColumnCloseResult;
+    use parquet::file::reader::{FileReader, SerializedFileReader};
+    use parquet::file::writer::SerializedFileWriter;
+    let src = std::fs::File::open(path)?;
+    let reader = SerializedFileReader::new(src.try_clone()?).map_err(io)?;
+    let md = reader.metadata();
+    let schema = md.file_metadata().schema_descr().root_schema_ptr();
+    // the copied chunks carry no page indexes, so the (page-less) empty ones must not either
+    let props = std::sync::Arc::new(WriterProperties::builder().set_offset_index_disabled(true).set_statistics_enabled(EnabledStatistics::None).build());
+    let tmp = path.with_extension("with-empties");
+    let mut w = SerializedFileWriter::new(std::fs::File::create(&tmp)?, schema, props).map_err(io)?;
+    if let Some(kv) = md.file_metadata().key_value_metadata() {
+        for e in kv {
+            w.append_key_value_metadata(e.clone());
+        }
+    }
+    let n = md.num_row_groups();
+    for i in 0..=n {
+        for b in before {
+            if *b == i || (i == n && *b > n) {
+                let mut rg = w.next_row_group().map_err(io)?;
+                while let Some(col) = rg.next_column().map_err(io)? {
+                    col.close().map_err(io)?;
+                }
+                rg.close().map_err(io)?;
+            }
+        }
+        if i < n {
+            let rgm = md.row_group(i);
+            let mut rg = w.next_row_group().map_err(io)?;
+            for c in rgm.columns() {
+                let close = ColumnCloseResult {
+                    bytes_written: c.compressed_size() as u64,
+                    rows_written: rgm.num_rows() as u64,
+                    metadata: c.clone(),
+                    bloom_filter: None,
+                    column_index: None,
+                    offset_index: None,
+                };
+                rg.append_column(&src, close).map_err(io)?;
+            }
+            rg.close().map_err(io)?;
+        }
+    }
+    w.close().map_err(io)?;
+    std::fs::rename(&tmp, path)
 }
 
 fn io<E: std::fmt::Display>(e: E) -> std::io::Error {
